@@ -10,6 +10,7 @@ import numpy as np
 import common as C
 
 META = {
+    "claimed": True,
     "id": "C13",
     "coq_targets": ["Props/C13.vo", "Extract/Extract_C13.vo"],
     "technique": "Coq proof (association-list model of dict(zip(..)); fold invariants for the per-frame and per-time painting loops, reusing the C19 painter lemmas) + differential correspondence of the extracted model with relabel_segmentation and with the tracks_from_df import path",
